@@ -1,0 +1,16 @@
+//go:build verif
+
+package slip
+
+// VerifHook, when set by a verification harness, is called at every
+// VerifPoint with the name of the point. Only built with the verif tag.
+var VerifHook func(name string)
+
+// VerifPoint marks a point between critical sections where a verification
+// harness may perturb the schedule (yield, sleep, park). It is never called
+// while one of the interpreter's own locks is held.
+func VerifPoint(name string) {
+	if h := VerifHook; h != nil {
+		h(name)
+	}
+}
